@@ -6,6 +6,7 @@ import (
 	"encoding/xml"
 	"fmt"
 	"io"
+	"path"
 	"strconv"
 	"strings"
 
@@ -214,7 +215,7 @@ func (r *Reader) parseWorksheets() error {
 
 		// Normalize path
 		if !strings.HasPrefix(target, "xl/") && !strings.HasPrefix(target, "/") {
-			target = "xl/" + target
+			target = path.Join("xl", target) // relative to xl/; resolves "../" segments
 		}
 		target = strings.TrimPrefix(target, "/")
 
